@@ -16,14 +16,14 @@ import (
 
 // G-MSG: messages of a modelled type, populated through dynamicpb.
 
-var vStrings = []string{"a", "héllo wörld", "with \"quotes\" and \\ and / and 'apostrophes'", "line\nbreak\ttab\rcr", "\u0001\u001f\u007f", "日本語😀", "</script><!--", "   sep", " leading and trailing ", strings.Repeat("long ", 60), "{\"json\":[1,2]}", "replacement \uFFFD char", "\uFFFD", ""}
+var vStrings = []string{"a", "héllo wörld", "with \"quotes\" and \\ and / and 'apostrophes'", "line\nbreak\ttab\rcr", "\u0001\u001f\u007f", "\x00\x01\x02\x03\x04\x05\x06\x07\x08\x09\x0a\x0b\x0c\x0d\x0e\x0f\x10\x11\x12\x13\x14\x15\x16\x17\x18\x19\x1a\x1b\x1c\x1d\x1e\x1f", "b\vb\x0e\x0f", "日本語😀", "</script><!--", "   sep", " leading and trailing ", strings.Repeat("long ", 60), "{\"json\":[1,2]}", "replacement \uFFFD char", "\uFFFD", ""}
 var vKeys = []string{"abc", "0123456789abcdefghijAB", "9f1b2c3d-4e5f-6a7b-8c9d-0e1f2a3b4c5d", "key with space", ""}
 var vInt32 = []int64{1, -1, math.MaxInt32, math.MinInt32, 42, 0}
 var vInt64 = []int64{1, -1, math.MaxInt64, math.MinInt64, 1<<53 + 1, -(1<<53 + 1), 0}
 var vUint32 = []uint64{1, math.MaxUint32, 1 << 31, 7, 0}
 var vUint64 = []uint64{1, math.MaxUint64, 1 << 63, 1<<53 + 1, 0}
-var vFloat = []float64{1.5, -2.25, math.MaxFloat32, math.SmallestNonzeroFloat32, 1e-7, 16777216, 0.1, 3.4e38, -1e-38, 0}
-var vDouble = []float64{1.5, -2.25, math.MaxFloat64, math.SmallestNonzeroFloat64, 0.1, 1e21, 1e-7, 123456789.12345679, 1 << 53, 0}
+var vFloat = []float64{math.Copysign(0, -1), 1.5, -2.25, math.MaxFloat32, math.SmallestNonzeroFloat32, 1e-7, 16777216, 0.1, 3.4e38, -1e-38, 0}
+var vDouble = []float64{math.Copysign(0, -1), 1.5, -2.25, 1e15, 999999999999999, 1e14 + 0.5, math.MaxFloat64, math.SmallestNonzeroFloat64, 0.1, 1e21, 1e-7, 123456789.12345679, 1 << 53, 0}
 var vBytes = [][]byte{{0}, {0xff, 0xfe}, {1, 2, 3}, {0xfb, 0xff, 0xbf, 0xfe}, []byte("hello world!?>>"), make([]byte, 64), longBytes(4096), longBytes(4097), longBytes(9001), {}}
 
 func longBytes(n int) []byte {
